@@ -67,6 +67,117 @@ def json_of_value(v, r, alt):
     return None
 
 
+def proj_entities(res):
+    """entity-map trees: the order of entities and of parents is part of the encoding (sorted); arrays INSIDE attrs / tags are set values"""
+    try:
+        t = sx.canon(sx.parse(res))
+    except Exception:
+        return res
+    def ent(e):
+        if isinstance(e, list) and e and e[0] == 'obj':
+            return ['obj'] + [[kv[0], sort_arrs(kv[1]) if sx.unS(kv[0]) in (b'attrs', b'tags') else kv[1]] for kv in e[1:]]
+        return e
+    if isinstance(t, list) and len(t) == 2 and t[0] == 'tree' and isinstance(t[1], list) and t[1] and t[1][0] == 'arr':
+        t = ['tree', ['arr'] + [ent(e) for e in t[1][1:]]]
+    return sx.dump(t)
+
+
+def entity_part(ctx, g):
+    """EntityMap.MarshalJSON / UnmarshalJSON = Impl/EntityJson.v on JSON trees"""
+    r = ctx.rng
+    quick = ctx.tier == 'quick'
+    tricky = [gen.vent('Doc', 'Team::alice'), gen.vent('Doc::Team', 'alice'), gen.vent('Doc', 'a"b'), gen.vent('Doc', 'a\\"b'), gen.vent('A::B', 'c'), gen.vent('A', 'B::c'),
+              gen.vent('A', ''), gen.vent('A', '::'), gen.vent('', 'x'), gen.vent('A', 'é'), gen.vent('A', '\n'), gen.vent('a', 'b'), gen.vent('B', 'a')]
+    stores = []
+    for i in range(500 if quick else 20000):
+        st = g.store()
+        if i % 3 == 0:
+            ents = r.sample(tricky, r.randrange(1, 7))
+            st = ['store'] + [['ent', e, ['parents'] + r.sample(tricky, r.randrange(0, 4)), ['attrs'] + ([[S('k'), g.value(2)]] if r.random() < 0.5 else []),
+                               ['tags'] + ([[S('t'), g.value(1)]] if r.random() < 0.3 else [])] for e in ents]
+        if not lib.has_4in6(sx.dump(st)):
+            stores.append(st)
+    # the sort key of the entity map (EntityUID.String()) is read off the code
+    uids = set()
+    for st in stores:
+        for e in st[1:]:
+            uids.add(sx.dump(e[1]))
+    keys = lib.run_go(['(case k0 ukeys (uids %s))' % ' '.join(sorted(uids))], 'ukeys', ctx.workdir).get('k0', '(keys)')
+    enc = [case('ee%d' % i, 'ejsonenc', st, sx.parse(keys)) for i, st in enumerate(stores)]
+    go_e, mo_e, m1 = lib.differential(ctx, enc, 'ejsonenc', project=proj_entities,
+                                      describe='JSON encoding of an entity map: Go and the Coq model (Impl/EntityJson.v) disagree')
+    ctx.oblige('correspondence: EntityMap.MarshalJSON = EntityJson.enc_entity_map as JSON trees (%d entity maps; order of entities and parents exact)' % len(enc),
+               'correspondence', not m1)
+    trees = []
+    for c in enc:
+        res_ = go_e.get(lib.case_id(c), '')
+        if res_.startswith('(tree '):
+            trees.append(sx.parse(res_)[1])
+    JUNK = [['null'], ['num', '1'], ['str', S('x')], ['arr'], ['obj'], ['bool', '1'], ['obj', [S('type'), ['str', S('T')]]], ['obj', [S('type'), ['str', S('T')]], [S('id'), ['str', S('i')]]],
+            ['obj', [S('__entity'), ['obj', [S('type'), ['str', S('T')]], [S('id'), ['str', S('i')]]]]], ['obj', [S('__entity'), ['obj', [S('type'), ['num', '1']]]]],
+            ['obj', [S('__entity'), ['null']], [S('type'), ['str', S('T')]], [S('id'), ['str', S('i')]]], ['obj', [S('type'), ['null']], [S('id'), ['str', S('i')]]],
+            ['arr', ['obj', [S('type'), ['str', S('T')]], [S('id'), ['str', S('i')]]], ['obj', [S('type'), ['str', S('T')]], [S('id'), ['str', S('i')]]]]]
+    KEYS = ['uid', 'parents', 'attrs', 'tags', 'type', 'id', '__entity', '__extn', 'zz', 'UID', 'Type']
+
+    def nodes(t, path=()):
+        yield path, t
+        if not isinstance(t, str) and t and t[0] == 'arr':
+            for i, x in enumerate(t[1:]):
+                yield from nodes(x, path + (i + 1,))
+        elif not isinstance(t, str) and t and t[0] == 'obj':
+            for i, kv in enumerate(t[1:]):
+                yield from nodes(kv[1], path + (i + 1, 1))
+
+    def replace(t, path, f):
+        if not path:
+            return f(t)
+        t = list(t)
+        t[path[0]] = replace(t[path[0]], path[1:], f)
+        return t
+
+    def mutate(t):
+        ns = list(nodes(t))
+        path, sub = r.choice(ns)
+        k = r.randrange(8)
+        if k == 0: return replace(t, path, lambda x: r.choice(JUNK))
+        objs = [(p_, x) for p_, x in ns if not isinstance(x, str) and x and x[0] == 'obj' and len(x) > 1]
+        if not objs: return replace(t, path, lambda x: ['null'])
+        p_, o = r.choice(objs)
+        i = r.randrange(1, len(o))
+        if k == 1: return replace(t, p_, lambda x: x[:i] + x[i + 1:])
+        if k == 2: return replace(t, p_, lambda x: x[:i] + [[x[i][0], ['null']]] + x[i + 1:])
+        if k == 3: return replace(t, p_, lambda x: x + [[x[i][0], r.choice(JUNK)]])
+        if k == 4: return replace(t, p_, lambda x: [x[0]] + r.sample(x[1:], len(x) - 1))
+        if k == 5: return replace(t, p_, lambda x: x + [[S(r.choice(KEYS)), r.choice(JUNK)]])
+        if k == 6: return replace(t, p_, lambda x: x[:i] + [[S(r.choice(KEYS)), x[i][1]]] + x[i + 1:])
+        return replace(t, path, lambda x: ['arr', x, x])          # e.g. an entity listed twice, a parent listed twice
+    dec_trees = list(trees)
+    for t in trees:
+        for _ in range(3 if quick else 8):
+            dec_trees.append(mutate(t))
+    dec = [case('ed%d' % i, 'ejsondec', t) for i, t in enumerate(dec_trees)]
+    go_d = lib.run_go(dec, 'ejsondec', ctx.workdir)
+    mo_d = lib.run_model(dec, 'ejsondec', ctx.workdir)
+    mism, unk, acc = 0, 0, 0
+    for c in dec:
+        cid = lib.case_id(c)
+        g_, m_ = lib.canon_str(go_d.get(cid, '(missing)')), lib.canon_str(mo_d.get(cid, '(missing)'))
+        if m_ == '(unmodelled)':
+            unk += 1
+            continue
+        acc += g_.startswith('(ok')
+        if g_ != m_:
+            if two_wrapping_members(c) and sorted(g_) == sorted(m_):
+                continue
+            mism += 1
+            if mism <= 6:
+                ctx.violation('EntityMap.UnmarshalJSON: Go and the Coq model (Impl/EntityJson.v dec_entity_map) disagree: go=%s model=%s' % (g_[:400], m_[:400]),
+                              dict(kind='case', case=c, go=g_, model=m_))
+    ctx.extra['ejsondec'] = dict(cases=len(dec), accepted=acc, unmodelled=unk)
+    ctx.oblige('correspondence: EntityMap.UnmarshalJSON = EntityJson.dec_entity_map on %d JSON trees (encoder outputs and structural mutants; %d outside the modelled domain)'
+               % (len(dec), unk), 'correspondence', mism == 0)
+
+
 def run(ctx):
     b = lib.standard_build(ctx)
     if not lib.require_builds(ctx, b):
@@ -142,6 +253,7 @@ def run(ctx):
     _, _, m2 = lib.differential(ctx, dec_cases, 'jsondec', describe='JSON decoding of a tree: Go and the Coq model (Impl/ValueJson.v) disagree')
     ctx.oblige('correspondence: types.UnmarshalJSON = ValueJson.decode_value on %d JSON trees (encoder outputs, alternative spellings, malformed escapes)' % len(dec_cases),
                'correspondence', not m2)
+    entity_part(ctx, g)
     go = lib.run_go(cases, 'json', ctx.workdir)
     bad = 0
     for c in cases:
